@@ -241,14 +241,36 @@ def ser_problem(problem, x1, x2):
             f"({' '.join(cons)}) ({pv}) ({cs}) {c0})")
 
 
-def ser_opts(method, strict=False, use_hessian=True, tol=None):
-    return f"(opts {qs('None' if method is None else method)} {b01(strict)} {b01(use_hessian)} {'None' if tol is None else rat(tol)})"
+def ser_opts(method, strict=False, use_hessian=True, tol=None, x0=None):
+    xs = "None" if x0 is None else "(" + " ".join(rat(float(v)) for v in x0) + ")"
+    return (f"(opts {qs('None' if method is None else method)} {b01(strict)} {b01(use_hessian)} "
+            f"{'None' if tol is None else rat(tol)} {xs})")
 
 
-def model_line(kind, problem, method, strict, use_hessian, tol, r1, r2, lr, fault):
+def model_line(kind, problem, method, strict, use_hessian, tol, r1, r2, lr, fault, x0=None):
     """the protocol line for one observed call; must be produced *before* the real call (state!)"""
     w = f"(world {r1.ser()} {r2.ser()} {lr.ser()} {'None' if fault is None else fault.ser()})"
-    return f"{kind} {ser_problem(problem, r1.x, r2.x)} {ser_opts(method, strict, use_hessian, tol)} {w} {ser_state(problem)}"
+    return (f"{kind} {ser_problem(problem, r1.x, r2.x)} {ser_opts(method, strict, use_hessian, tol, x0)} {w} "
+            f"{ser_state(problem)}")
+
+
+def reference_start(variables):
+    """independent re-statement of the documented default start point (same float operations):
+    both bounds → lb + max(1e-4, 1 % of the range) capped at the midpoint; lb only → lb + 1e-4;
+    ub only → ub − 1; unbounded → 0"""
+    out = []
+    for v in variables:
+        lb = v.lb if v.lb is not None and math.isfinite(v.lb) else None
+        ub = v.ub if v.ub is not None and math.isfinite(v.ub) else None
+        if lb is not None and ub is not None:
+            out.append(min(lb + max(1e-4, 0.01 * (ub - lb)), (lb + ub) / 2))
+        elif lb is not None:
+            out.append(lb + 1e-4)
+        elif ub is not None:
+            out.append(ub - 1.0)
+        else:
+            out.append(0.0)
+    return out
 
 
 # ----------------------------------------------------------------------------- observing the real code
@@ -278,7 +300,7 @@ def parse_warning(w):
     return f"(warn-other {w.category.__name__})"
 
 
-def observe(problem, kind, method, strict, use_hessian, tol, r1, r2, lr, fault=None, extra_kwargs=None):
+def observe(problem, kind, method, strict, use_hessian, tol, r1, r2, lr, fault=None, extra_kwargs=None, x0=None):
     """run the real code with the solver seams stubbed and (optionally) one injected fault;
     returns (canonical text in the format of the Lean driver, info dict)"""
     import scipy.optimize as SO
@@ -292,6 +314,7 @@ def observe(problem, kind, method, strict, use_hessian, tol, r1, r2, lr, fault=N
     from optyx.solvers.lp_solver import solve_lp
 
     ev = []
+    user_x0 = x0
     st = {"min": 0, "fired": False, "wseen": 0, "exc": None, "n_build_expr": 0, "n_build_jac": 0}
     mutated = []
     wl = None
@@ -314,7 +337,13 @@ def observe(problem, kind, method, strict, use_hessian, tol, r1, r2, lr, fault=N
         flush()
         p = st["min"]
         bs = "None" if bounds is None else "(" + " ".join(_bnd(lb, ub) for lb, ub in bounds) + ")"
-        ev.append(f"(minimize {method} jac={b01(jac is not None)} hess={b01(hess is not None)} bounds={bs} "
+        got0 = [float(v) for v in np.asarray(x0, dtype=float).ravel()]
+        if user_x0 is None:
+            # the code's own default start: "None" when it is the documented one, else what it really was
+            xs = "None" if got0 == reference_start(o_vars.fget(problem)) else "(" + " ".join(rat(v) for v in got0) + ")"
+        else:
+            xs = "(" + " ".join(rat(v) for v in got0) + ")"
+        ev.append(f"(minimize {method} x0={xs} jac={b01(jac is not None)} hess={b01(hess is not None)} bounds={bs} "
                   f"ncons={len(constraints)})")
         st["min"] += 1
         if hits("minimize", p):
@@ -415,6 +444,8 @@ def observe(problem, kind, method, strict, use_hessian, tol, r1, r2, lr, fault=N
                 patch(AN.LinearProgramExtractor, "extract", p_extract)
                 patch(warnings, "warn", p_warn)
             kw = dict(extra_kwargs or {})
+            if user_x0 is not None:
+                kw["x0"] = np.array(user_x0, dtype=float)
             try:
                 if kind == "solve":
                     if tol is not None:
@@ -529,7 +560,19 @@ SHAPES = {
     "E": {"spec": {"vars": [["x", 0.0, None, "continuous"], ["y", 0.0, None, "continuous"]], "sense": "min",
                    "obj": [[2, [[0, 1]]], [3, [[1, 1]]], [5, []]], "cons": [[[[1, [[0, 1]]], [1, [[1, 1]]]], ">=", 1.0]]},
           "points": {"feas": [1.0, 0.0], "viol-con": [0.25, 0.25], "viol-lb": [2.0, -1.0]}},
+    # unconstrained, unbounded, maximise, symmetric about 0: the default start (0, 0) is the optimum
+    "S": {"spec": {"vars": [["x", None, None, "continuous"], ["y", None, None, "continuous"]], "sense": "max",
+                   "obj": [[10, []], [-1, [[0, 2]]], [-1, [[1, 2]]]], "cons": []},
+          "points": {"feas": [0.0, 0.0], "feas2": [1.0, -0.5]}},
+    # box only, minimise, optimum strictly inside the box / start points on the box
+    "T": {"spec": {"vars": [["x", -2.0, 2.0, "continuous"], ["y", -1.0, 1.0, "continuous"]], "sense": "min",
+                   "obj": [[3, []], [1, [[0, 2]]], [-2, [[0, 1]]], [1, []], [2, [[1, 2]]], [2, [[1, 1]]], [0.5, []]], "cons": []},
+          "points": {"feas": [1.0, -0.5], "viol-lb": [-3.0, 0.0], "feas-corner": [2.0, 1.0]}},
 }
+# user-supplied start points per shape (the optimum / a corner of the box / an arbitrary point); every
+# row of the table cycles through: default start, default start, these, and "the point the solver returns"
+STARTS = {"A": [[1.0], [0.0]], "B": [[2.0, 1.0], [0.0, 2.0]], "C": [[1.0], [2.0]], "D": [[0.5], [-1.0]],
+          "E": [[1.0, 0.0], [0.0, 0.0]], "S": [[0.0, 0.0], [1.0, -1.0]], "T": [[1.0, -0.5], [-2.0, -1.0], [2.0, 1.0]]}
 
 
 def objective_at(spec, x):
@@ -568,7 +611,13 @@ def stub_rows(rng, thorough):
                             else:
                                 rows.append((sname, method, tol, lab, r1, r2s[k % len(r2s)]))
                             k += 1
-    return rows
+    # the start-point dimension: default / user-supplied (optimum, corner, other) / warm start at the returned point
+    out = []
+    for i, (sname, method, tol, lab, r1, r2) in enumerate(rows):
+        n = len(SHAPES[sname]["spec"]["vars"])
+        choices = [None, None] + STARTS[sname] + ([list(r1.x[:n])] if len(r1.x) >= n else [])
+        out.append((sname, method, tol, lab, r1, r2, choices[(i // 2) % len(choices)]))
+    return out
 
 
 def run_stub_table(rep, rng, thorough, want_oracle=True, kinds=("solve", "solve-scipy")):
@@ -577,7 +626,7 @@ def run_stub_table(rep, rng, thorough, want_oracle=True, kinds=("solve", "solve-
     rows = stub_rows(rng, thorough)
     probs = {}
     lines, metas = [], []
-    for i, (sname, method, tol, lab, r1, r2) in enumerate(rows):
+    for i, (sname, method, tol, lab, r1, r2, x0) in enumerate(rows):
         kind = kinds[i % len(kinds)]
         # a problem object is reused across rows (its caches evolve: that state is part of the input)
         key = (sname, kind, i % 3)
@@ -585,11 +634,11 @@ def run_stub_table(rep, rng, thorough, want_oracle=True, kinds=("solve", "solve-
             probs[key] = build_problem(SHAPES[sname]["spec"])[0]
         P = probs[key]
         uh = (i % 5 != 0)
-        line = model_line(kind, P, method, False, uh, tol, r1, r2, DUMMY_LRES, None)
-        text, info = observe(P, kind, method, False, uh, tol, r1, r2, DUMMY_LRES)
+        line = model_line(kind, P, method, False, uh, tol, r1, r2, DUMMY_LRES, None, x0=x0)
+        text, info = observe(P, kind, method, False, uh, tol, r1, r2, DUMMY_LRES, x0=x0)
         lines.append(line)
         metas.append(({"shape": sname, "kind": kind, "method": method, "tol": tol, "point": lab, "r1": r1.js(),
-                       "r2": r2.js(), "use_hessian": uh}, P, text, info))
+                       "r2": r2.js(), "use_hessian": uh, "x0": x0}, P, text, info))
     outs = run_lean_unit(lines)
     rep.evaluations += len(lines)
     for (meta, P, text, info), model in zip(metas, outs):
@@ -906,7 +955,8 @@ def replay(payload) -> bool:
         c = f["case"]
         P = build_problem(SHAPES[c["shape"]]["spec"])[0]
         r1, r2 = Res(*c["r1"]), Res(*c["r2"])
-        text, info = observe(P, c["kind"], c["method"], False, c["use_hessian"], c["tol"], r1, r2, DUMMY_LRES)
+        text, info = observe(P, c["kind"], c["method"], False, c["use_hessian"], c["tol"], r1, r2, DUMMY_LRES,
+                             x0=c.get("x0"))
         print(text)
         sol = info.get("solution")
         if sol is None or sol.status.name != "OPTIMAL":
